@@ -27,7 +27,7 @@ def vol(tier, quick, thorough, search=None):
 # ---------------------------------------------------------------------------------------
 def gen_dense(rng, tier):
     out = []
-    for L in range(0, 6):
+    for L in range(0, 9):
         max_rows = 6 if L == 0 else 3 * L + 1
         for nrow in range(0, max_rows + 1):
             for ncol in range(0, 7):
@@ -170,7 +170,7 @@ def _cells(rng, L):
 def gen_forcing(rng, tier):
     out = []
     for k in range(vol(tier, 1500, 40000)):
-        L = rng.randrange(0, 6)
+        L = rng.choice([0, 1, 2, 3, 4, 5, 0, 1, 2, 3, 4, 5, 6, 7, 8])
         ncells = _cells(rng, L)
         nspec, vmap, rxns = rand_mech(rng, malformed=(k % 25 == 7))
         nrxn = len(rxns)
@@ -185,7 +185,7 @@ def gen_forcing(rng, tier):
 def gen_jacobian(rng, tier):
     out = []
     for k in range(vol(tier, 1500, 40000)):
-        L = rng.randrange(0, 6)
+        L = rng.choice([0, 1, 2, 3, 4, 5, 0, 1, 2, 3, 4, 5, 6, 7, 8])
         csc = rng.randrange(2)
         ncells = _cells(rng, L)
         nspec, vmap, rxns = rand_mech(rng, malformed=(k % 25 == 7))
@@ -678,9 +678,9 @@ def gen_markowitz(rng, tier):
 # ratec L ncells nproc {kind size nthird}* by_label T[ncells] P[ncells] vals[ncells*nparams]
 def gen_ratec(rng, tier):
     out = []
-    for L in range(0, 6):
+    for L in range(0, 9):
         for ncells in range(1, (3 * L + 2) if L else 5):
-            for _ in range(vol(tier, 6, 60)):
+            for _ in range(vol(tier, 6 if L < 6 else 2, 60 if L < 6 else 20)):
                 nproc = rng.randrange(1, 7)
                 specs = []
                 for r in range(nproc):
